@@ -161,6 +161,29 @@ let op_sbs_adjust = function
       "OK\t" ^ hex_of_text (SbsStyles.adjust GenSbs.code_guard supplied (sbs = "1") o (text_of_hex v))
   | _ -> "BADARGS"
 
+(* ingest hexbytes : the carriage-return clean-up of one input line (bytes) *)
+let op_ingest = function
+  | [ h ] ->
+      let bytes_of s = L.init (S.length s) (fun i -> n_of_int (Char.code (S.get s i))) in
+      let b = Buffer.create 64 in
+      L.iter (fun n -> Buffer.add_char b (Char.chr (int_of_n n))) (Ingest.ingest (bytes_of (hex_decode h)));
+      "OK\t" ^ hex_encode (Buffer.contents b)
+  | _ -> "BADARGS"
+
+(* submodule_run color_only lines : the submodule short-form handler over the body lines of one hunk, starting
+   directly after the hunk header; per line N (not claimed), H (held back, nothing written) or M:<row> *)
+let op_submodule_run = function
+  | [ co; lines ] ->
+      let rec go st = function
+        | [] -> []
+        | l :: r ->
+            (match Submodule.sub_handle (co = "1") st l with
+             | None -> "N" :: go (match st with Submodule.HeldMinus m -> Submodule.HeldMinus m | _ -> Submodule.Elsewhere) r
+             | Some (st', None) -> "H" :: go st' r
+             | Some (st', Some o) -> ("M:" ^ hex_of_text (Submodule.sub_shown o)) :: go st' r) in
+      "OK\t" ^ S.concat ";" (go Submodule.AfterHunkHeader (lines_of_arg lines))
+  | _ -> "BADARGS"
+
 (* ---- styles (C12, C09) *)
 let color_of_string w =
   if w = "normal" || w = "-" then None
@@ -540,6 +563,8 @@ let dispatch = function
   | "delta_safes" :: args -> op_delta_safes args
   | "merge_run" :: args -> op_merge_run args
   | "sbs_adjust" :: args -> op_sbs_adjust args
+  | "ingest" :: args -> op_ingest args
+  | "submodule_run" :: args -> op_submodule_run args
   | "blame_run" :: args -> op_blame_run args
   | "blame_spec" :: args -> op_blame_spec args
   | "ping" :: _ -> "pong"
